@@ -309,12 +309,21 @@ func (f *fakeConn) armKinds() []int {
 	return out
 }
 
-func (f *fakeConn) SetDeadline(t time.Time) error      { return nil }
-func (f *fakeConn) SetWriteDeadline(t time.Time) error { return nil }
+// Like real sockets, deadline calls fail once the connection is closed.
+func (f *fakeConn) SetDeadline(t time.Time) error {
+	if f.isClosed() {
+		return net.ErrClosed
+	}
+	return nil
+}
+func (f *fakeConn) SetWriteDeadline(t time.Time) error { return f.SetDeadline(t) }
 func (f *fakeConn) SetReadDeadline(t time.Time) error {
 	f.mu.Lock()
+	defer f.mu.Unlock()
 	f.arms = append(f.arms, time.Until(t).Round(time.Second))
-	f.mu.Unlock()
+	if f.closed {
+		return net.ErrClosed
+	}
 	return nil
 }
 
@@ -333,6 +342,7 @@ const (
 )
 
 type callRec struct {
+	hasWid    bool
 	st        callState
 	orig      uint16
 	wid       uint16
@@ -351,6 +361,7 @@ const waitReturn = 3 * time.Second
 
 // View is what a script generator may look at to pick the next action.
 type View struct {
+	QidForced bool
 	St      map[int]callState
 	Wid     map[int]uint16
 	Cancel  map[int]bool
@@ -411,8 +422,11 @@ func (v *View) Applicable(a Action) bool {
 		if v.registered(a.C) {
 			return true
 		}
+		// A late reply to a finished call is in the property's scope as long
+		// as fewer than 65536 queries followed it, i.e. always in a script,
+		// unless the script itself forced the id counter (test hook).
 		_, known := v.Wid[a.C]
-		return v.In(a.C, csDone) && known && widFree(v.Wid[a.C], a.C)
+		return v.In(a.C, csDone) && known && (!v.QidForced || widFree(v.Wid[a.C], a.C))
 	case AFeedStray:
 		return !v.Closed && !v.ReadErr && widFree(a.Wid, -1)
 	case AFeedErr, AExpire:
@@ -494,6 +508,7 @@ func Run(s Script, next func(v *View) *Action) (Script, []Obs, Final) {
 
 	obs := make([]Obs, 0, len(s.Actions))
 	idleRearm := false
+	qidForced := false
 	collect := func(o *Obs) {
 		// wait for every call whose return is enabled, then poll the rest
 		ids := make([]int, 0, len(calls))
@@ -527,13 +542,13 @@ func Run(s Script, next func(v *View) *Action) (Script, []Obs, Final) {
 	}
 
 	view := func() *View {
-		v := &View{St: map[int]callState{}, Wid: map[int]uint16{}, Cancel: map[int]bool{}, Closed: fc.isClosed(), Steps: len(s.Actions)}
+		v := &View{St: map[int]callState{}, Wid: map[int]uint16{}, Cancel: map[int]bool{}, Closed: fc.isClosed(), Steps: len(s.Actions), QidForced: qidForced}
 		fc.mu.Lock()
 		v.ReadErr = fc.readErr != nil
 		fc.mu.Unlock()
 		for c, cr := range calls {
 			v.St[c] = cr.st
-			if cr.st >= csInWrite {
+			if cr.hasWid {
 				v.Wid[c] = cr.wid
 			}
 			v.Cancel[c] = cr.cancelled
@@ -591,6 +606,7 @@ func Run(s Script, next func(v *View) *Action) (Script, []Obs, Final) {
 					fmt.Fprintf(os.Stderr, "tdcx: write by call %d while starting %d\n", ev.c, c)
 				}
 				cr.wid = ev.wid
+				cr.hasWid = true
 				cr.st = csInWrite
 				o.Code = int(ev.wid) + 1
 			case r := <-cr.done:
@@ -673,6 +689,7 @@ func Run(s Script, next func(v *View) *Action) (Script, []Obs, Final) {
 			}
 		case ASetQid:
 			dc.VerifSetNextQid(a.Wid)
+			qidForced = true
 		}
 		collect(&o)
 		sort.Slice(o.Ret, func(i, j int) bool { return o.Ret[i].C < o.Ret[j].C })
@@ -683,6 +700,9 @@ func Run(s Script, next func(v *View) *Action) (Script, []Obs, Final) {
 	time.Sleep(5 * time.Millisecond)
 	var fin Final
 	fin.Reserved, fin.Queued = dc.VerifCounters()
+	if fin.Reserved < 0 {
+		fin.Reserved = 99999 // a counter underflow: never what the model says
+	}
 	fin.Closed = dc.IsClosed()
 	fin.Arms = fc.armKinds()
 	fin.IdleRearm = idleRearm
